@@ -469,6 +469,19 @@ add("C08", "benign-sql-closing-quote-by-search", "core_codemods/sql_parameteriza
       "            quote_span = raw_quote_pattern.search(raw_value)\n        else:\n            quote_span = next(quote_pattern.finditer(raw_value))\n")],
     "silent")
 
+add("C03", "changesets-filed-by-path", "codemodder/context.py",
+    [("        self._changesets_by_codemod.setdefault(codemod_name, []).extend(change_sets)\n",
+      "        self._changesets_by_codemod.setdefault(codemod_name, {}).update((cs.path, cs) for cs in change_sets)\n")],
+    "fire", "R-ACCUMULATE-ALL", "add_changesets")
+add("C03", "split-lines-regex-breaks-at-lone-cr", "codemodder/diff.py",
+    [("    lines = text.split(\"\\n\")\n    return [line + \"\\n\" for line in lines[:-1]] + ([lines[-1]] if lines[-1] else [])\n",
+      "    import re\n    return re.findall(r\"[^\\r\\n]*(?:\\r\\n|\\n|\\r)|[^\\r\\n]+\", text)\n")],
+    "fire", "R-LINE-UNIT", "codemodder.diff")
+add("C03", "benign-split-lines-regex-lf-only", "codemodder/diff.py",
+    [("    lines = text.split(\"\\n\")\n    return [line + \"\\n\" for line in lines[:-1]] + ([lines[-1]] if lines[-1] else [])\n",
+      "    import re\n    return re.findall(r\"[^\\n]*\\n|[^\\n]+\", text)\n")],
+    "silent")
+
 # --------------------------------------------------------------------------- C02
 add("C02", "secure-random-import-dropped", "core_codemods/secure_random.py",
     [("        self.add_needed_import(\"secrets\")\n", "")],
